@@ -7,7 +7,7 @@ EXTENDS Transforms
 (* ---- start vectors ---- *)
 QVals == {-3, -1, 0, 1, 2, 5}            \* -1.5 -0.5 0 0.5 1 2.5
 QLens == 0..3
-TVals == {-4, -3, -1, 0, 1, 2, 3, 5}
+TVals == {-4, -3, -1, 0, 1, 2, 5}             \* -2 -1.5 -0.5 0 0.5 1 2.5
 TLens == 0..4
 SVals == {-1, 0, 3}                      \* script mode
 SLens == {3}
@@ -79,6 +79,8 @@ TDecs == Bounds(TIvs, TIX) \cup Discrete(TIX) \cup Rounding(TIX) \cup Order(TIX)
          \cup Track \cup Stats \cup Rewrite
          \cup {DUnique(<<-4, -3, -1, 0, 1, 2, 3, 5>>), DUnique(<<0, 1, 2>>), DUnique(<<0, 2, 4, 6>>),
                DSorting(1, 0, <<0, -4>>, 0)}
+
+ASSUME Vacuity(QDecs, QVals, QLens) /\ Vacuity(TDecs, TVals, TLens)
 
 (* rounding to tens: digits = -1 on larger values *)
 NDecs == {DRounded(-1, ix) : ix \in {All, <<0>>, <<-1>>, <<0, 3>>}} \cup {DPrecision(-1, ix, 0) : ix \in {All, <<1>>}}
